@@ -89,6 +89,14 @@ def _impl(tier, seed, search):
                     sq_ = max(1e-300, float(np.max(np.abs(qv_))))
                     L.close('UQ.dot', np.asarray(r[0], float), 0.5 * b.qqmul(b.pure(w), qv_), 1e-9, sq_ * sw, dict(q=qv_, w=w, kind=nm_), what='UnitQuaternion.dot is not (1/2) pure(w) q for the stored value', sig='class-dot')
                     L.close('UQ.dotb', np.asarray(r[1], float), 0.5 * b.qqmul(qv_, b.pure(w)), 1e-9, sq_ * sw, dict(q=qv_, w=w, kind=nm_), what='UnitQuaternion.dotb is not (1/2) q pure(w) for the stored value', sig='class-dot')
+        # small operands (component magnitudes 1e-6, products 1e-12 .. 1e-18): the product is exact relative to |p||q| — nothing is "round-off"
+        if i % 8 == 0:
+            ps_ = 1e-6 * np.array([1.0, 2.0, 3.0, 4.0]) * float(g.uniform(0.5, 2)); qs_ = 1e-6 * np.array([3.01, 1.0, -1.0, 1.0]); rs_ = 1e-6 * g.normal(size=4)
+            def hp_(x_, y_): return np.array([x_[0] * y_[0] - x_[1:] @ y_[1:], *(x_[0] * y_[1:] + y_[0] * x_[1:] + np.cross(x_[1:], y_[1:]))])
+            for nm_, got_, want_, sc_ in (('qqmul(small)', lambda: b.qqmul(ps_, qs_), hp_(ps_, qs_), float(np.linalg.norm(ps_) * np.linalg.norm(qs_))), ('qqmul(small,small,small)', lambda: b.qqmul(b.qqmul(ps_, qs_), rs_), hp_(hp_(ps_, qs_), rs_), float(np.linalg.norm(ps_) * np.linalg.norm(qs_) * np.linalg.norm(rs_))),
+                                          ('Quaternion*Quaternion(small)', lambda: (Quaternion(ps_) * Quaternion(qs_)).vec, hp_(ps_, qs_), float(np.linalg.norm(ps_) * np.linalg.norm(qs_))), ('qqmul(small, 1)', lambda: b.qqmul(ps_ * 1e-9, [1.0, 0, 0, 0]), ps_ * 1e-9, float(np.linalg.norm(ps_) * 1e-9))):
+                ok, r = L.noraise(nm_, got_, dict(p=ps_, q=qs_), nm_)
+                if ok: L.close(nm_, np.asarray(r, float), want_, 1e-9, sc_, dict(p=ps_, q=qs_), what='the Hamilton product of small quaternions is not exact relative to the product of their norms', sig='mul:small-operands')
         # integer powers |n| <= 6 on moderately scaled quaternions
         am = a / max(sa, 1e-300) * 10.0 ** g.uniform(-1, 1)
         k = int(g.integers(-6, 7))
